@@ -89,7 +89,12 @@ def rxn_ids(net):
     k = 0
     for col in net:
         if is_boundary(col):
-            ids.append("EX_" + METS[[i for i, x in enumerate(col) if x][0]])
+            rid = "EX_" + METS[[i for i, x in enumerate(col) if x][0]]
+            n = 1
+            while rid in ids:   # a further boundary reaction of the same metabolite (hand-made shapes only)
+                n += 1
+                rid = "EX%d_%s" % (n, METS[[i for i, x in enumerate(col) if x][0]])
+            ids.append(rid)
         else:
             k += 1
             ids.append("v%d" % k)
